@@ -5,7 +5,7 @@ CONSTANTS MaxDepth
 A == <<"a">>
 AB == <<"a", "b">>
 Base(mod, verb) == [pfx |-> "localhost", local |-> TRUE, inface |-> 700, mod |-> mod, verb |-> verb, hasParams |-> TRUE, hasName |-> TRUE, name |-> A,
-                    faceId |-> -1, cost |-> -1, origin |-> -1, flags |-> -1, strat |-> "", stratName |-> "", capacity |-> -1, mtu |-> -1, flagsMask |-> "none", exp |-> -1, create |-> ""]
+                    faceId |-> -1, cost |-> -1, origin |-> -1, flags |-> -1, strat |-> "", stratName |-> "", capacity |-> -1, mtu |-> -1, flagsMask |-> "none", exp |-> -1, create |-> "", pers |-> -1, fl |-> 1, mk |-> 1]
 \* how the command arrives: prefix x scope of the arrival face
 Entries == {<<"localhost", TRUE>>, <<"localhost", FALSE>>, <<"localhop", TRUE>>, <<"localhop", FALSE>>, <<"other", TRUE>>}
 Via(c, e) == [c EXCEPT !.pfx = e[1], !.local = e[2]]
@@ -21,23 +21,28 @@ Str == { [Base("strategy-choice", v) EXCEPT !.name = n, !.strat = s, !.stratName
 Cs == { [Base("cs", "config") EXCEPT !.hasName = FALSE, !.capacity = k, !.hasParams = hp, !.flagsMask = fm] : k \in {-1, 5, -2}, hp \in BOOLEAN, fm \in {"none", "both", "flags"} }
 Fac == { [Base("faces", v) EXCEPT !.hasName = FALSE, !.faceId = f, !.mtu = m, !.flagsMask = fm] :
            v \in {"update", "destroy"}, f \in {-1, 800, 9999}, m \in {-1, 0, 100, 1500}, fm \in {"none", "both", "flags"} }
+       \cup { [Base("faces", "update") EXCEPT !.hasName = FALSE, !.faceId = f, !.pers = p, !.mtu = m, !.flagsMask = fm, !.fl = x, !.mk = 5] :
+                f \in {-1, 800}, p \in {0, 1, 2}, m \in {-1, 0}, fm \in {"none", "both", "flags"}, x \in {0, 4, 5} }
 Cre == { [Base("faces", "create") EXCEPT !.hasName = FALSE, !.create = k, !.hasParams = hp] :
            k \in {"nouri", "smallmtu", "baduri", "flagsonly", "conflict", "multicast", "ondemand", "scheme"}, hp \in {TRUE} }
 Short == { [Base(m, "") EXCEPT !.hasParams = FALSE, !.hasName = FALSE] : m \in {"", "rib", "faces"} }
 Cmds == { Via(c, e) : c \in Rib \cup Fib \cup Str \cup Cs \cup Fac \cup Cre \cup Short, e \in Entries }
 Init == routes = {} /\ nh = Empty /\ st = (<<>> :> "best-route") /\ cap = 1024 /\ faces = (700 :> 8800 @@ 800 :> 1500) /\ lh \in BOOLEAN
+        /\ fprop = (700 :> [pers |-> 0, lf |-> FALSE, cm |-> TRUE] @@ 800 :> [pers |-> 0, lf |-> FALSE, cm |-> TRUE])
         /\ fattr = (700 :> [scope |-> 1, schemes |-> {"unix", "fd"}, uri |-> "fd://7", luri |-> "unix:///run/nfd.sock"]
                      @@ 800 :> [scope |-> 0, schemes |-> {"udp4"}, uri |-> "udp4://10.0.0.2:6363", luri |-> "udp4://10.0.0.1:6363"])
         /\ ev = [c |-> [pfx |-> "none", local |-> FALSE, mod |-> "", verb |-> ""], accepted |-> FALSE]
 Next == \E c \in Cmds : Command(c, Accepts(c))
 Spec == Init /\ [][Next]_vars
 Constr == TLCGet("level") <= MaxDepth
-View == <<routes, nh, st, cap, faces, fattr, lh>>
+View == <<routes, nh, st, cap, faces, fprop, fattr, lh>>
 \* a query names nothing that is gone: the answer to every filter lies within the face table, and the unfiltered query is the face table
 Queries == { [faceId |-> f, scheme |-> s, scope |-> sc, uri |-> "", luri |-> ""] : f \in {-1, 700, 800, 9999}, s \in {"", "udp4", "fd"}, sc \in {-1, 0, 1} }
 QuerySane == /\ \A q \in Queries : QueryAnswer(q) \subseteq DOMAIN faces
              /\ QueryAnswer([faceId |-> -1, scheme |-> "", scope |-> -1, uri |-> "", luri |-> ""]) = DOMAIN faces
-AttrsOfLiveFaces == DOMAIN fattr = DOMAIN faces
+AttrsOfLiveFaces == DOMAIN fattr = DOMAIN faces /\ DOMAIN fprop = DOMAIN faces
+\* no face ever holds a persistency its kind cannot have
+PersSane == \A f \in DOMAIN fprop : PersOK(f, fprop[f].pers)
 RootStrategy == <<>> \in DOMAIN st
 RoutesOnExistingFaces == \A r \in routes : r.face \in DOMAIN faces
 MtuSane == \A f \in DOMAIN faces : faces[f] >= 1
